@@ -450,7 +450,7 @@ type Explorer struct {
 	Horizon int
 	Body    func()
 	// Check is called after every execution; a non-empty result is a violation.
-	Check func(x *Execution) string
+	Check  func(x *Execution) string
 	OnFail func(choices []int, x *Execution, msg string)
 	Stop   func() bool
 	// Shard/NShards split the first-level subtrees between processes.
